@@ -165,6 +165,22 @@ MUTANTS = [
  ('C06-9', 'C06', K + 'Volume/CellConversion.py',
   "            if cell.trcl and not cell.filltr:\n                for trcl in cell.trcl:\n                    new_filltr = compose_transform(trcl, new_filltr)",
   "            if cell.trcl:\n                for trcl in cell.trcl:\n                    new_filltr = compose_transform(trcl, new_filltr)"),
+ # ---- C07
+ ('C07-1', 'C07', K + 'Volume/Lattice.py',
+  "    base_vecs = [vdiff(vertices_0[0], vertices_0[2]),\n                 vdiff(vertices_2[0], vertices_2[2])]",
+  "    base_vecs = [vdiff(vertices_0[0], vertices_0[1]),\n                 vdiff(vertices_2[0], vertices_2[2])]"),
+ ('C07-2', 'C07', K + 'Volume/Lattice.py',
+  "    vertices_2, _ = hexVertices(surfaces, 2)",
+  "    vertices_2, _ = hexVertices(surfaces, 4)"),
+ ('C07-3', 'C07', K + 'Volume/Lattice.py',
+  "        bottom_pt = projectPointOnPlane(vertices_0[0], surfaces[-1][0], axis)\n        top_pt = projectPointOnPlane(vertices_0[0], surfaces[-2][0], axis)",
+  "        bottom_pt = projectPointOnPlane(vertices_0[0], surfaces[-2][0], axis)\n        top_pt = projectPointOnPlane(vertices_0[0], surfaces[-1][0], axis)"),
+ ('C07-4', 'C07', K + 'Volume/Lattice.py',
+  "    base_vecs = [vdiff(vertices_0[0], vertices_0[2]),\n                 vdiff(vertices_2[0], vertices_2[2])]",
+  "    base_vecs = [vdiff(vertices_0[2], vertices_0[0]),\n                 vdiff(vertices_2[0], vertices_2[2])]"),
+ ('C07-5', 'C07', K + 'VectUtils.py',
+  "    dist = scal(vdiff(pl_pt, point), normal) / scal(direction, normal)\n    return vsum(point, rescale(dist, direction))",
+  "    dist = scal(vdiff(pl_pt, point), normal) / scal(normal, normal)\n    return vsum(point, rescale(dist, normal))"),
 ]
 
 
